@@ -7,3 +7,5 @@ open PgmVerif
 #print axioms PgmVerif.C11_hc_lists
 #print axioms PgmVerif.C11_delta_exact
 #print axioms PgmVerif.C11_hc_monotone
+#print axioms PgmVerif.C11_hc_indegree
+#print axioms PgmVerif.C11_defaults_tie
